@@ -11,11 +11,27 @@ _DB_NOTE = ("histories are sampled (seeded), not enumerated; databases of <= 10-
 _DB_TECH = "TLA+ trace validation (TLC) of recorded query histories against the DbModel specification"
 
 
-def _db(text, design, mc=False):
+_MBT_TX = (" Spec -> implementation, bounded-exhaustive: TLC (MCDbExport) prints one shortest history through every "
+           "transition of the bounded DbModel (every mutating query form, rejected ones included, in every distinct reachable "
+           "abstract state up to depth 3: 89 469 transitions; the quick tier replays all histories of <= 2 queries and a seeded "
+           "eighth of the rest); each is executed on the real database in four plans (as printed; last query / last two queries "
+           "inside a transaction the closure aborts; last two inside a committing transaction), partly on the file-backed "
+           "variants with a reopen before the dump, and DbTrace decides every replayed run.")
+_MBT_GRAPH = (" Spec -> implementation, bounded-exhaustive: TLC (MCGraphExport) prints one history per distinct graph of the "
+              "bounded model (<= 3 nodes, <= 3-4 edges in every insertion order, self-loops, parallel edges, cycles, one removal "
+              "with slot reuse: 5 152 / 45 098 graphs); each is built on the real database and EVERY search of the family (each "
+              "element and a missing id as origin, forward / reverse, breadth / depth first, the elements search) is decided by "
+              "DbTrace against DbSearch.")
+
+
+def _db(text, design, mc=False, mbt=None):
     return dict(level="model_checking",
-                text=text + (" DbModel itself is model-checked exhaustively for small constants (MCDb)." if mc else ""),
+                text=text + (" DbModel itself is model-checked exhaustively for small constants (MCDb)." if mc else "")
+                + (_MBT_TX if mbt == "tx" else _MBT_GRAPH if mbt == "graph" else ""),
                 design=design, note=_DB_NOTE,
-                technique=_DB_TECH + (" + TLC model checking of the bounded model" if mc else ""), engine="vdb")
+                technique=_DB_TECH + (" + TLC model checking of the bounded model" if mc else "")
+                + (" + replay of TLC-generated histories (every transition / every graph of the bounded model) on the real database" if mbt else ""),
+                engine="vdb")
 
 
 CHECKS = {
@@ -26,7 +42,9 @@ CHECKS = {
              "the real FileStorage::new and compared with the model's prediction; random Storage-level programs on the "
              "real FileStorage/FileStorageMemoryMapped with every system-call prefix and every byte-prefix of every "
              "pending write recovered by the real code and compared with the last committed image; the system-call "
-             "trace validated by TLC against WalTrace.tla.",
+             "trace validated by TLC against WalTrace.tla; the same programs with values of 64 KiB .. 200 KB (clean crash point "
+             "at every system call, sampled torn prefixes incl. both sides of every 64 KiB boundary), decided by the driver's "
+             "byte comparison because byte strings of that size are out of TLC's reach.",
         design="3.1, 4 C01",
         note="page-cache writes are visible in program order; crash = process death (no power-loss reordering); "
              "exhaustive only for the stated constants (files <= 5 bytes); hook H1 fires before every mutating call "
@@ -81,16 +99,16 @@ CHECKS = {
     "C08": _db("Node/edge insert (single, pairwise, each), removal by id and alias with cascade, id reuse, self-loops, "
                "parallel edges, bad endpoints: each query's success/failure, returned ids (fresh, signed) and the full dump "
                "afterwards (endpoints, per-node in/out adjacency, node count, edge counts) must be what DbModel allows.",
-               "3.3, 4 C08", mc=True),
+               "3.3, 4 C08", mc=True, mbt="tx"),
     "C09": _db("insert values / insert-or-update nodes and edges / remove values / element removal: the ordered key-value "
                "map of every element after every step, select values (all, by keys, missing key error), select keys and "
-               "key counts must equal DbModel.", "3.3, 4 C09", mc=True),
+               "key counts must equal DbModel.", "3.3, 4 C09", mc=True, mbt="tx"),
     "C10": _db("alias insert / re-alias / steal / edge ids / empty alias / alias removal / node removal: the alias mapping "
                "after every step, alias resolution of ids, select aliases and all aliases must equal DbModel's bijection; "
-               "the named bad inputs must fail without effect.", "3.3, 4 C10", mc=True),
+               "the named bad inputs must fail without effect.", "3.3, 4 C10", mc=True, mbt="tx"),
     "C11": _db("index create/remove at arbitrary points, value inserts/replacements/removals on indexed and non-indexed keys, "
                "element removal with cascade, failing transactions: every index search and the index listing are compared "
-               "with the operators IndexIds / IndexCount DERIVED from the model state.", "3.3, 4 C11"),
+               "with the operators IndexIds / IndexCount DERIVED from the model state.", "3.3, 4 C11", mbt="tx"),
     "C12": _db("values of all nine types (extreme integers, all float classes incl. NaN payloads and signed zeros, strings "
                "and byte arrays of length 0..40 around the inline limit, multi-byte UTF-8, vectors) as keys and as values on "
                "DbMemory, DbFile and Db in lock-step incl. after reopen/backup; values are carried as bit-exact tokens and "
@@ -119,11 +137,11 @@ CHECKS = {
                "require that the value selected as T equals the value written.", "B.3.3, B.4 C22"),
     "C13": _db("transaction_mut closures of 1-4 queries that commit, abort on their own, or contain a failing query, and "
                "single queries failing after partial work: TLC requires the dump after a rollback to equal the state before "
-               "it up to the order of properties/connections (SameUpToOrder).", "3.3, 3.5, 4 C13"),
+               "it up to the order of properties/connections (SameUpToOrder).", "3.3, 3.5, 4 C13", mbt="tx"),
     "C14": _db("breadth-first / depth-first searches without conditions, forward and reverse, from node and edge origins on "
                "random multigraphs with self-loops, parallel edges, cycles, removals and id reuse; TLC requires the recorded "
                "result to EQUAL the reference traversal (DbSearch!Traverse) computed on the model state that the mutation "
-               "events built (adjacency newest-first, distance in element steps).", "3.4, 4 C14"),
+               "events built (adjacency newest-first, distance in element steps).", "3.4, 4 C14", mbt="graph"),
     "C15": _db("random condition trees (depth <= 3: node, edge, distance, edge counts, ids, keys, key-value comparisons incl. "
                "cross-type values and contains/starts/ends, nested where, and/or, not/beyond/not-beyond) over random "
                "property-bearing graphs, BFS and DFS both directions; TLC requires equality with DbSearch!EvalList-driven "
@@ -137,7 +155,7 @@ CHECKS = {
                "passing elements of SOME minimum-cost path (cost 1 passing / 2 not passing / unusable where the conditions "
                "stop), empty iff none exists.", "3.4, 4 C17"),
     "C18": _db("elements searches after histories with removals and id reuse: TLC requires the result to contain every live "
-               "element exactly once in increasing id magnitude (InSlotOrder).", "3.4, 4 C18"),
+               "element exactly once in increasing id magnitude (InSlotOrder).", "3.4, 4 C18", mbt="graph"),
     "C19": dict(
         level="model_checking",
         text="HashMap.tla, a slot-level model of multi_map.rs (probing, tombstones, grow/shrink thresholds) with the minimum "
@@ -166,7 +184,7 @@ CHECKS = {
         engine="vdb"),
     "C24": dict(
         level="model_checking",
-        text='A real agdb_server process (built from /repo) is driven with random multi-user request sequences over the whole documented endpoint table (user and /admin/ API: sessions, users, database add/delete/remove/copy/rename/backup/restore/rollback/clear/convert/optimize/exec/exec_mut/audit, database users) with valid, logged-out, deleted-user and bogus tokens; after every request the complete visible state (users, databases, roles, content, audit, files) is observed through a reserved admin session. ServerTrace.tla decides every request: 2xx only if the token is a live session AND Permitted (the documented table, literally); a rejected request leaves the observed state unchanged; a performed request changes only what its operation may change and role / user / session changes have their documented effect (revocation is immediate because the next request is judged against the updated state).',
+        text='A real agdb_server process (built from /repo) is driven with random multi-user request sequences (two profiles: the whole endpoint table; and few operation kinds with many role holders - the same database name under several owners, roles granted, changed and removed, every role-gated operation tried by every kind of holder) over the whole documented endpoint table (user and /admin/ API: sessions, users, database add/delete/remove/copy/rename/backup/restore/rollback/clear/convert/optimize/exec/exec_mut/audit, database users) with valid, logged-out, deleted-user and bogus tokens; after every request the complete visible state (users, databases, roles, content, audit, files) is observed through a reserved admin session. ServerTrace.tla decides every request: 2xx only if the token is a live session AND Permitted (the documented table, literally); a rejected request leaves the observed state unchanged; a performed request changes only what its operation may change and role / user / session changes have their documented effect (revocation is immediate because the next request is judged against the updated state).',
         design='3.11, 4 C24',
         note="request sequences are sampled (seeded), one client at a time, 2 users + the server admin; sessions are tracked from "
              "login/logout because they are not observable; token expiry is not exercised (configuration minimum 60 s); single "
